@@ -33,6 +33,17 @@
 (*             "full"  like "span" but the collector queue is full         *)
 (*                     (AddSpan returns collect.ErrWouldBlock)             *)
 (*             "empty" an event without any field (invalid)                *)
+(*             "neg"   /1/batch only: like "span", but the envelope of the *)
+(*                     event carries a negative samplerate.  The statement *)
+(*                     does not say whether such an event is invalid, so   *)
+(*                     the handler may accept it (what the code does: the  *)
+(*                     rate wraps when converted to uint) or answer 400    *)
+(*                     FOR THAT EVENT (c.strict = "event"), or refuse the  *)
+(*                     whole batch BEFORE it processes any of its events   *)
+(*                     (c.strict = "request": an error answer and nothing  *)
+(*                     handed on).  What it may not do is turn the event   *)
+(*                     into an answer for the whole request after other    *)
+(*                     events of the batch were handed on                  *)
 (*   split   OTLP: how the events are spread over the resources of the     *)
 (*           request (husky makes one batch per resource); <<2, 1>> = two  *)
 (*           events in the first resource, one in the second               *)
@@ -109,7 +120,12 @@ Encodings(ep) == IF ep = "event" \/ IsBatch(ep) THEN {"json", "msgpack"}
 \* an OTLP span always has a trace ID; an OTLP event always has fields
 Kinds(ep) == IF ep \in {"otlp-http-traces", "otlp-grpc-traces"} THEN {"span", "peer", "full"}
              ELSE IF ep \in {"otlp-http-logs", "otlp-grpc-logs"} THEN {"span", "peer", "full", "plain"}
+             ELSE IF IsBatch(ep) THEN {"span", "peer", "full", "plain", "empty", "neg"}
              ELSE {"span", "peer", "full", "plain", "empty"}
+
+\* events a handler must / may call invalid (per event, in a batch)
+MustBeInvalid(k) == k = "empty"
+MayBeInvalid(k)  == k \in {"empty", "neg"}
 
 Min2(a, b) == IF a < b THEN a ELSE b
 Shapes(ep) == IF ep = "event" THEN {<<k>> : k \in Kinds(ep)}
@@ -162,7 +178,7 @@ Requests ==
                 : enc \in Encodings(ep), ds \in DatasetFaults(ep) \ {"none"}, ss \in ShapeSplits(ep)}
          : ep \in Endpoints}
 
-Dest(kind) == CASE kind = "span" -> "collector" [] kind = "peer" -> "peer" [] kind = "plain" -> "upstream"
+Dest(kind) == CASE kind \in {"span", "neg"} -> "collector" [] kind = "peer" -> "peer" [] kind = "plain" -> "upstream"
 
 ---------------------------------------------------------------------------
 (* The handlers                                                            *)
@@ -200,7 +216,7 @@ Process(r, s, c) ==
       k == r.shape[i]
       n == [s EXCEPT !.idx = i + 1]
   IN  IF IsBatch(r.ep) THEN
-         CASE k = "empty" -> [n EXCEPT !.perEvent = Append(@, 400)]
+         CASE k = "empty" \/ (k = "neg" /\ c.strict = "event") -> [n EXCEPT !.perEvent = Append(@, 400)]
            [] k = "full"  -> [n EXCEPT !.perEvent = Append(@, 429), !.refused = @ \cup {i}]
            [] OTHER       -> [n EXCEPT !.perEvent = Append(@, 202), !.effects = @ \cup {[e |-> i, to |-> Dest(k)]}]
       ELSE IF k = "full" THEN
@@ -229,7 +245,11 @@ LookupEnv(r, s, n) ==
 RECURSIVE EndOf(_, _)
 EndOf(r, g) == IF g = 0 THEN 0 ELSE EndOf(r, g - 1) + r.split[g]
 
+HasNeg(r) == \E i \in 1 .. Len(r.shape) : r.shape[i] = "neg"
+
 \* c.dev: follow the known deviation where there is one; c.lenient: see Process;
+\* c.strict: an event with a negative samplerate is accepted ("accept"), answered
+\* 400 per event ("event"), or makes the handler refuse the batch up front ("request");
 \* c.extra: how many more times than once the environment is resolved up front
 StepFn(r, s, c) ==
   LET nxt == After(r.ep, s.pc) IN
@@ -245,7 +265,9 @@ StepFn(r, s, c) ==
          ELSE IF c.dev /\ IsOTLP(r.ep)
               THEN [l.st EXCEPT !.pc = "respond", !.devs = @ \cup {DevName(r.ep)}]
          ELSE Fail(l.st)
-    [] s.pc = "parse"         -> IF r.parse # "none" THEN Fail(s) ELSE Goto(s, nxt)
+    [] s.pc = "parse"         -> IF r.parse # "none" THEN Fail(s)
+                                 ELSE IF c.strict = "request" /\ IsBatch(r.ep) /\ HasNeg(r) THEN Fail(s)
+                                 ELSE Goto(s, nxt)
     [] s.pc = "validate"      -> IF r.shape[1] = "empty" THEN Fail(s) ELSE Goto(s, nxt)
     [] s.pc = "batch"         -> IF s.grp > Len(r.split) THEN Goto(s, "respond") ELSE Goto(s, "process")
     [] s.pc = "process"       -> IF IsOTLP(r.ep)
@@ -257,7 +279,7 @@ StepFn(r, s, c) ==
 RECURSIVE Run(_, _, _)
 Run(r, s, c) == IF s.pc = "done" THEN s ELSE Run(r, StepFn(r, s, c), c)
 
-Choices == [dev : IF Faithful THEN BOOLEAN ELSE {FALSE}, lenient : BOOLEAN, extra : 0 .. 2]
+Choices == [dev : IF Faithful THEN BOOLEAN ELSE {FALSE}, lenient : BOOLEAN, strict : {"accept", "event", "request"}, extra : 0 .. 2]
 
 ---------------------------------------------------------------------------
 Cur == [pc |-> pc, idx |-> idx, grp |-> grp, calls |-> calls, cached |-> cached,
@@ -280,6 +302,7 @@ Label(name, n) == IF n.devs # devs THEN [name |-> name, dev |-> DevName(req.ep)]
 \* when exactly the last of them reaches the call from which the auth API fails
 Differs(f(_), c) == /\ (c.extra > 0 => req.key = "es" /\ req.ttl = "tiny" /\ req.envAt = c.extra + 1)
                     /\ (c.lenient => req.ep = "event" /\ f(c) # f([c EXCEPT !.lenient = FALSE]))
+                    /\ (c.strict # "accept" => IsBatch(req.ep) /\ f(c) # f([c EXCEPT !.strict = "accept"]))
                     /\ (c.dev => req.envAt > 0 /\ f(c) # f([c EXCEPT !.dev = FALSE]))
 
 \* one step of the handler
@@ -335,7 +358,7 @@ ErrorMeansNoEffects == Ideal => (status = "err" => effects = {})
 \* processing was tried (an empty event of a batch is answered per event)
 SuccessMeansAllTried ==
   Ideal => (Done /\ status = "ok" =>
-              \A i \in 1 .. N : (IsBatch(req.ep) /\ req.shape[i] = "empty") \/ i \in Tried)
+              \A i \in 1 .. N : i \in Tried \/ (IsBatch(req.ep) /\ MayBeInvalid(req.shape[i]) /\ i <= Len(perEvent) /\ perEvent[i] = 400))
 
 \* C23: the batch list says 202 exactly for accepted events, 429 exactly for events
 \* the collector queue refused, 400 for invalid ones; no list next to an error
@@ -345,7 +368,9 @@ PerEventExact ==
               THEN /\ Len(perEvent) = N
                    /\ \A i \in 1 .. N : /\ (perEvent[i] = 202 <=> i \in Handed)
                                         /\ (perEvent[i] = 429 <=> i \in refused)
-                                        /\ (perEvent[i] = 400 <=> req.shape[i] = "empty")
+                                        /\ (perEvent[i] = 400 <=> i \notin Tried)
+                                        /\ (perEvent[i] = 400 => MayBeInvalid(req.shape[i]))
+                                        /\ (MustBeInvalid(req.shape[i]) => perEvent[i] = 400)
               ELSE perEvent = <<>>)
 NoListElsewhere == ~IsBatch(req.ep) => perEvent = <<>>
 
@@ -357,7 +382,7 @@ ExactlyOneStatus == Ideal => /\ writes <= 1
 \* what is handed on are the request's events, each to the place its kind
 \* prescribes, and queue refusals are exactly of the "full" events
 EffectsAreTheEvents ==
-  /\ \A x \in effects : req.shape[x.e] \in {"span", "peer", "plain"} /\ x.to = Dest(req.shape[x.e])
+  /\ \A x \in effects : req.shape[x.e] \in {"span", "peer", "plain", "neg"} /\ x.to = Dest(req.shape[x.e])
   /\ \A i \in refused : req.shape[i] = "full"
   /\ Handed \cap refused = {}
 
@@ -365,6 +390,7 @@ EffectsAreTheEvents ==
 FaultFreeSucceeds ==
   Ideal => (Done /\ req.dataset = "none" /\ req.envAt = 0 /\ req.body = "none" /\ req.parse = "none"
               /\ (req.ep = "event" => req.shape[1] \notin {"empty", "full"})
+              /\ ~HasNeg(req)
             => status = "ok")
 \* a request-level fault is answered with an error (a fault of a later auth
 \* call only if the handler made that call)
@@ -384,7 +410,7 @@ Answered == <>Done
 \* what the deviations break (MC_Responses_code_cex.cfg: TLC must report a violation)
 CodeErrorMeansNoEffects == status = "err" => effects = {}
 CodeExactlyOneStatus    == writes <= 1
-CodeSuccessMeansTried   == Done /\ status = "ok" => \A i \in 1 .. N : (IsBatch(req.ep) /\ req.shape[i] = "empty") \/ i \in Tried
+CodeSuccessMeansTried   == Done /\ status = "ok" => \A i \in 1 .. N : (IsBatch(req.ep) /\ MayBeInvalid(req.shape[i])) \/ i \in Tried
 
 ---------------------------------------------------------------------------
 (* Plumbing for the conformance replay                                     *)
